@@ -223,6 +223,14 @@ fn extra_templates() -> Vec<(&'static str, T)> {
         ("GOSUB stub", T::S(Stmt::Gosub(STUB_LINE))),
         ("GOSUB fnsub", T::S(Stmt::Gosub(FNSUB_LINE))),
         ("PRINT X,", T::S(p(vec![PItem::E(var("X")), PItem::Comma]))),
+        (
+            "PRINT X=0 OR X=1 AND X=2;X=1 AND X=2 OR X=0",
+            T::S(p(vec![
+                PItem::E(bin(Or, bin(Eq, var("X"), num(0.0)), bin(And, bin(Eq, var("X"), num(1.0)), bin(Eq, var("X"), num(2.0))))),
+                PItem::Semi,
+                PItem::E(bin(Or, bin(And, bin(Eq, var("X"), num(1.0)), bin(Eq, var("X"), num(2.0))), bin(Eq, var("X"), num(0.0)))),
+            ])),
+        ),
         ("PRINT INT(RND(.5)*100);INT(RND(1)*100)", T::S(p(vec![PItem::E(Expr::Int(Box::new(bin(Mul, Expr::Rnd(Box::new(num(0.5))), num(100.0))))), PItem::Semi, PItem::E(Expr::Int(Box::new(bin(Mul, Expr::Rnd(Box::new(num(1.0))), num(100.0)))))]))),
         ("IF X=0 THEN PRINT 1/0", T::S(Stmt::If(bin(Eq, var("X"), num(0.0)), br(pe(bin(Div, num(1.0), num(0.0)))), None))),
         (
@@ -293,7 +301,7 @@ pub fn forvar_menu() -> Vec<(&'static str, T)> {
 /// Values on their way to text: signed zero, fractions, large and small magnitudes, numeric DATA
 /// items read into a string variable.
 pub fn values_menu() -> Vec<(&'static str, T)> {
-    pick(&["X=X+1", "X=X-1", "PRINT -X;X*-3", "PRINT X/3;X*1E20;X/1E7", "DATA -0,1000,.5,1E20", "READ Y$", "READ X", "PRINT Y$;X;", "PRINT X,", "PRINT INT(RND(.5)*100);INT(RND(1)*100)"])
+    pick(&["X=X+1", "X=X-1", "PRINT -X;X*-3", "PRINT X/3;X*1E20;X/1E7", "DATA -0,1000,.5,1E20", "READ Y$", "READ X", "PRINT Y$;X;", "PRINT X,", "PRINT INT(RND(.5)*100);INT(RND(1)*100)", "PRINT X=0 OR X=1 AND X=2;X=1 AND X=2 OR X=0"])
 }
 
 /// Statements that execute nothing (REM, DATA) between ones that do: what one call steps over.
